@@ -258,5 +258,5 @@ MANIFEST = {
             "permit in hand and a successful attempt then adds a session; after cancellation a quiescent pool has no session and no open connection. The extracted canonical schedule is compared with "
             "the real muxProvider + multiMuxManager + managed sessions over net.Pipe with faults injected at each stage.",
     "note": "Healing is proved as 'quiescent => full or waiting' plus C10_heals: under the canonical schedule k+1 successful attempts bring a pool with k free permits back to full strength (not under "
-            "arbitrary fairness). yamux/net are trusted; that the REAL establisher configuration detects a silent peer (yamux keep-alive) is checked on the implementation (role=establisher, event KS).",
+            "arbitrary fairness). yamux/net are trusted; that the REAL establisher configuration detects a silent peer (yamux keep-alive) is checked on the implementation (role=establisher, event KS). The real receiver-role provider is exercised over loopback TCP with and without TLS (silent / garbage / half-record / TLS-only / hang-up peers between healthy ones) and under session churn with concurrent Describe()/CanAcceptConnections() callers.",
 }
